@@ -7,7 +7,7 @@
 (* call and its result likewise; nothing is computed by a model - and      *)
 (* evaluates every property clause after every call.  Decides VIOLATION.   *)
 (***************************************************************************)
-EXTENDS URLTableProps, Json, IOUtils, TLCExt
+EXTENDS URLTableProps, Json, IOUtils, TLCExt, SequencesExt
 
 Batch == JsonDeserialize(IOEnv.TRACE_FILE)
 NT    == Len(Batch)
@@ -45,15 +45,22 @@ MSpec == MInit /\ [][MNext]_mvars
 \* a URL is stored once: the read-back never shows two rows for one URL string
 StoredOnce == (ev.op # "init") => ev.dup = 0
 
-ASSUME \A i \in 1..(2 * NT) : TLCSet(i, 0)
+\* ---- per-trace verdict registers: i -> furthest line reached, NT+i -> every <<line, clause>> violated
+\*      (the monitor never diverges from the recording, so it keeps judging after a violation: a known
+\*      defect early in a history does not hide anything behind it)
+ASSUME \A i \in 1..NT : TLCSet(i, 0) /\ TLCSet(NT + i, <<>>)
 
-MonBad == IF ~StoredOnce THEN 24 ELSE BadClause
+BadSet == {c \in 1..23 : ClauseBad(c) # 0} \cup (IF StoredOnce THEN {} ELSE {24})
 
 Record ==
   /\ IF TLCGet(tid) < l THEN TLCSet(tid, l) ELSE TRUE
-  /\ IF MonBad # 0 /\ TLCGet(NT + tid) = 0 THEN TLCSet(NT + tid, MonBad * 100000 + l) ELSE TRUE
+  /\ IF BadSet # {} /\ Len(TLCGet(NT + tid)) < 60
+     THEN TLCSet(NT + tid, TLCGet(NT + tid) \o SetToSeq({<<l, c>> : c \in BadSet}))
+     ELSE TRUE
 
+\* flat integers per trace: furthest line, number of pairs, then the pairs
 Post == PrintT(<<"VERDICTS_BEGIN",
-                 [i \in 1..NT |-> <<TLCGet(i) - 1, TLCGet(NT + i) \div 100000, TLCGet(NT + i) % 100000>>],
+                 [i \in 1..NT |-> <<TLCGet(i) - 1, Len(TLCGet(NT + i))>> \o
+                                   FlattenSeq(TLCGet(NT + i))],
                  "VERDICTS_END">>)
 =============================================================================
